@@ -288,7 +288,18 @@ func c13Jobs(tier string) []*SeqJob {
 			if nrep > 2 {
 				nrep = 2
 			}
-			key = fmt.Sprint(ks, nrep)
+			// flushes leave state behind that the reference does not have (batches emitted, pooled
+			// tag slices borrowed and returned, internal counters): count them, up to three
+			nfl := 0
+			for _, op := range hist {
+				if alphabet[op] == "flush" {
+					nfl++
+				}
+			}
+			if nfl > 3 {
+				nfl = 3
+			}
+			key = fmt.Sprint(ks, nrep, nfl)
 			return
 		}
 		j.Run = func(ctx *SeqCtx) { bfs(ctx, alphabet, depth, exec) }
